@@ -263,6 +263,11 @@ theorem segments_inv {t t' : Tcb} {out : List Segment}
            · cases hs
            · exact segmentize_inv _ _ _ h0 hs)
         | (cases hs; exact h0)
+    -- nobody closed: no FIN is pending, `finIfPending` is the identity
+    rw [h.st.finPending] at e
+    unfold finIfPending at e
+    rw [if_neg Bool.false_ne_true] at e
+    dsimp only at e
     simp only [Except.ok.injEq, Prod.mk.injEq] at e
     obtain ⟨e1, e2⟩ := e
     have i2 : TInv port issX issY subX subY delX
